@@ -21,7 +21,7 @@ pub fn property() -> Property {
             "reference codec and the id->instance model in harness/src/props/c02.rs",
             "tokio paused clock / current-thread scheduler; harness pipe",
         ],
-        families: vec![(Box::new(HistoryFam), 15_000, 120_000), (Box::new(ConcFam), 1_000, 8_000)],
+        families: vec![(Box::new(HistoryFam), 15_000, 600_000), (Box::new(ConcFam), 1_000, 60_000)],
     }
 }
 
